@@ -64,7 +64,7 @@ def run_props(pid):
         capture_output=True, text=True, cwd=common.COQ)
     out = res.stdout + res.stderr
     text = open(src).read()
-    names = re.findall(r"^\s*(?:Theorem|Lemma)\s+(\w+)", text, re.M)
+    names = re.findall(r"^\s*Theorem\s+(\w+)", text, re.M)
     printed = re.findall(r"^\s*Print Assumptions\s+(\w+)\.", text, re.M)
     blocks = []
     # Coq prints one block per Print Assumptions, in order
